@@ -40,15 +40,27 @@ def flatten_shl(n):
 
 
 def this_member(n):
-    """name of the data member of *this an expression reads (first MemberExpr on this found), or None"""
-    for x in A.walk(n):
+    """name of the data member of *this an expression reads (first MemberExpr on this found), or None; an element of an array
+    member selected by an integer literal is named member[k] (capacitance[0] and capacitance[1] are different values)"""
+    def find(x, parent):
         if x.get("kind") == "MemberExpr" and x.get("inner") and strip(x["inner"][0]).get("kind") == "CXXThisExpr" and "referencedMemberDecl" in x:
-            if "bound member function" in x.get("type", {}).get("qualType", ""):
-                continue
-            nm = x.get("name")
-            # method call on this (e.g. this->Get_x()) is not a data member
-            return nm
-    return None
+            if "bound member function" not in x.get("type", {}).get("qualType", ""):
+                nm = x.get("name")
+                p = parent
+                while p is not None and p[0].get("kind") in ("ImplicitCastExpr", "ParenExpr"):
+                    p = p[1]
+                if p is not None and p[0].get("kind") == "ArraySubscriptExpr" and len(p[0].get("inner", [])) == 2:
+                    k = A.const_int(strip(p[0]["inner"][1]))
+                    if k is not None:
+                        nm = "%s[%d]" % (nm, k)
+                return nm
+        for c in x.get("inner", []) or []:
+            if isinstance(c, dict):
+                got = find(c, (x, parent))
+                if got is not None:
+                    return got
+        return None
+    return find(n, None)
 
 
 def literal_text(n):
@@ -311,7 +323,7 @@ def unit_defined_flags(rel, cls, twin=False):
                         if m: mem.add(m)
             for f in setf:
                 sets.setdefault(f, []).append(mem)
-    def norm(x): return x.lower().replace("_", "")
+    def norm(x): return x.lower().replace("_", "").replace("[", "").replace("]", "")
     for f in sorted(tested):
         base = f[:-len("_defined")]
         where = sets.get(f, [])
